@@ -11,3 +11,11 @@ add("C13", "Hypothesis rule-based state machine + exhaustive enumeration of shor
     "Every history of up to 3 merge/delete operations on <=3 (thorough: 4) cells over all set partitions and deletion subsets, plus thousands of generated histories (n<=9, up to 12/30 steps, overlapping/redundant/merged/deleted members) run on a dense and a csr matrix in lock-step next to an explicit model (disjoint sorted groups + block sums of the original matrix); index list, every entry, row sums, symmetry, dense==sparse, one-shot==step-wise, order/redundancy independence checked after every step; cut_and_merge checked for the four limit combinations. Exploration within those bounds.",
     "Trusted: numpy, the 60-line Model class. Both readings of 'link through a deleted cell' are accepted.",
     "DESIGN.md section 5, C13")
+add("C16", "Hypothesis text generation of every accepted syntax against an exact rational (Fraction) model",
+    "Tens of thousands (thorough: 400 000) of generated radial-grid strings in every accepted syntax, number spelling and whitespace; parsed radii compared with exact rational arithmetic x10 (rtol 1e-12), ordering, rejection of negative members, increments, the shell-boundary rule incl. single-radius and last-shell cases, and the identifier as the documented function of the array bytes (same array from another syntax -> same identifier).",
+    "Trusted: fractions.Fraction, numpy. Not generated: negative zero, descending linspace/range, duplicate radii. Grids containing radius 0: increments/boundaries not judged.",
+    "DESIGN.md section 5, C16")
+add("C17", "exhaustive enumeration of a token language for both roles + Hypothesis text tokens, against the statement's validity predicate",
+    "All 585 000 (name, role) pairs of 1..4 tokens over a 23-token alphabet (30 tokens thorough) are parsed; each outcome must be ValueError or a standard name satisfying every clause of the statement (valid algorithm for the role, N>=1, N=1 <=> zero algorithm, bare number -> default, no two numbers / two algorithms, fixed point of re-parsing); every distinct accepted standard name with N<=50 (300 thorough) is built by the factory and its points counted.",
+    "Trusted: the 40-line predicate in props/c17.py. Names with a dimension tag are unspecified and skipped.",
+    "DESIGN.md section 5, C17")
